@@ -883,6 +883,11 @@ func runC12(c *Ctx, pr *PropertyRun) {
 	// the paths of the discovery chain are decoded strings: they reach the
 	// next request as they are (shared with C05.no-reparse)
 	urlParseRule(c, pr, "C12", nil)
+	// what reaches the adapters: the generic handler's dispatch (MKCOL goes
+	// to the backend, which answers 403 away from collection level, before
+	// anything else is said about the request) (shared with C01.dispatch)
+	c01Dispatch(c, pr, "C12")
+	redirectCodesRule(c, pr, "C12")
 	ops := NewRule("C12", "C12.level-ops", "level -> backend operation (or refusal) for every adapter method, with the request path unchanged (E2)")
 	ops.Exhaustive = true
 	pr.Rules = append(pr.Rules, ops)
